@@ -333,7 +333,7 @@ def check(prog, rep, tier):
             continue
         cov = set()
         for a in s.actions:
-            if a.kind == 'slice' and a.target == 'esi':
+            if a.kind == 'slice' and a.meth == 'use' and a.target == 'esi':
                 cov |= set(range(a.args[0].value, a.args[1].value))
         read[lo] = cov if lo not in read else (read[lo] & cov)
     for t in sorted(esi_pad):
